@@ -12,7 +12,7 @@ DEMOFILE=$(ls $OUT | grep -v 'patch.diff\|meta.json' | head -1)
 [ -f "$WT/$DEMO_PATH" ] || cp $OUT/$DEMOFILE $WT/$DEMO_PATH
 go build ./... || { echo "BUILD FAILS"; git checkout -q -- .; exit 2; }
 mv $WT/$DEMO_PATH /tmp/demo-hold.$$            # the suite must be green without the demo
-go test -vet=off -count=1 ./... 2>&1 | grep -v 'no test files' | grep -v '^ok' | head -5; SUITE=${PIPESTATUS[0]}
+go test -vet=off -count=1 ./... > /tmp/suite.$$ 2>&1; SUITE=$?; grep -E '^(FAIL|---)' /tmp/suite.$$ | head -5; rm -f /tmp/suite.$$
 mv /tmp/demo-hold.$$ $WT/$DEMO_PATH
 echo "suite-with-change exit=$SUITE"
 (eval "$DEMO_CMD") > /tmp/demo.$$ 2>&1; D1=$?; echo "demo-with-change exit=$D1 (expect != 0)"
